@@ -18,6 +18,12 @@ func factsAll() {
 	factsCodec()
 	factsHD()
 	factsWalletTx()
+	factsKeeper()
+}
+
+func factsKeeper() {
+	intFact("plotterMaxChanSize", "poc/engine/spacekeeper/capacity", "plotterMaxChanSize")
+	intFact("plotterMaxChanSizeV2", "poc/engine.v2/spacekeeper/skchia", "plotterMaxChanSize")
 }
 
 // factsWalletTx: for every exported method of KeystoreManagerForPoC that runs db.Update — how many Update calls,
